@@ -127,3 +127,5 @@ PROP = {'title': 'Vector, dim and matrix arithmetic obeys the exact ring and mod
                  'are outside the statement (exact scalars only)']}
 
 PROP['rule'] += ' Builders called with named (lvalue) scalars of the move-observable symbolic type: matrix::row, matrix(row,row), vector/dim constructors, fill, push_back -- results equal the plain arrays and the scalars keep their values; identity<Matrix> itself for all 16 shapes (also non-square) against the Kronecker delta.'
+
+PROP['rule'] += " structure_cast with a user converter x -> 1 - x, same and different value type, for vector, dim (static and view storage) and matrix."
